@@ -268,13 +268,13 @@ PROPS = {
              "must_cover": ["completed", "dev-payout-at-2nd-block", "old-burn-zeroing", "v204-mint"], "max_witness_replays": 8},
             dict(txblock("txblock-fault", {"maxentries": 1, "kindset": 1, "fault": 1}, {"maxentries": 1, "kindset": 0, "fault": 1}),
                  must_cover=["fault-failed-block"]),
-            dict(holding("holding-fault", {"maxheld": 1, "fault": 1, "fixrates": 1}, {"maxheld": 2, "fault": 1, "fixrates": 1}),
-                 must_cover=["fault-failed-block", "fault-ended-process"]),
+            dict(holding("holding-fault", {"maxheld": 1, "fault": 1, "fixrates": 1}, {"maxheld": 2, "fault": 1, "fixrates": 1, "edges": 0}),
+                 must_cover=["fault-failed-block", "fault-ended-process"], workers={"thorough": 6}),
             MULTIFETCH,
             SYNCBLOCKFAULT,
         ],
         "wall": {"quick": 400, "thorough": 3000},
-        "bounds": {"quick": "as C02's loop harness with the fault oracle: EVERY single DB-API call of the run fails once (error, no effect), or one of the first 8 upstream Factom requests fails once; the loop's own retry then completes the sync; plus the per-block units with content: ApplyTransactionBlock over 1 entry of every kind and the holding pass (SyncBank + ApplyTransactionBatchesInHolding) over 1 held conversion, each with EVERY single DB-API call of the unit failing once, compared against the same symbolic scenario run without a fault (a unit that reports success must have left exactly the fault-free store); the whole SyncBlock with content (OPR+SPR winner, rates, held conversion, transfer entry, holders) at 3 heights with every DB call failing once, retried by the same daemon; multiFetch with a failing request under the scheduling oracles", "thorough": "same, all entry kinds; holding pass over 1..2 held conversions at rates 1:1 (with symbolic rates the fault variant runs into the SQL-overflow guard, which the fault-free variant excludes by a precondition: reduced, stated)"},
+        "bounds": {"quick": "as C02's loop harness with the fault oracle: EVERY single DB-API call of the run fails once (error, no effect), or one of the first 8 upstream Factom requests fails once; the loop's own retry then completes the sync; plus the per-block units with content: ApplyTransactionBlock over 1 entry of every kind and the holding pass (SyncBank + ApplyTransactionBatchesInHolding) over 1 held conversion, each with EVERY single DB-API call of the unit failing once, compared against the same symbolic scenario run without a fault (a unit that reports success must have left exactly the fault-free store); the whole SyncBlock with content (OPR+SPR winner, rates, held conversion, transfer entry, holders) at 3 heights with every DB call failing once, retried by the same daemon; multiFetch with a failing request under the scheduling oracles", "thorough": "same, all entry kinds; holding pass over 1..2 held conversions at rates 1:1, one executing height inside each era (with the activation blocks as well the two-conversion variant ran into the path cap: reduced, stated; the activation blocks are in the one-conversion quick variant) (with symbolic rates the fault variant runs into the SQL-overflow guard, which the fault-free variant excludes by a precondition: reduced, stated)"},
         "assumptions": ["single transient fault per run; a failed COMMIT leaves nothing applied (go-sqlite3 rolls back)",
                         "multiFetch: goroutines and channels are sequentialised (deterministic scheduling, no preemption between channel operations) with two oracles: a worker may be overtaken while its request is in flight, and any of several waiting workers may deliver first; 1..3 entries, one failing request",
                         "log.Fatal (process exit after an unrecoverable rollback error) counts as 'not committed short'"],
